@@ -233,8 +233,11 @@ OuterLoop:
 
 			url.Init()
 			rl.bindPolicyToURL(url)
+			// Share the limiter with the previous generation instead of
+			// taking it away: requests that already hold the previous
+			// generation are still going to call prev.rl in Handle, and
+			// another URL of this spec may be deep equal to prev as well.
 			url.rl = prev.rl
-			prev.rl = nil
 			rl.setStateListenerForURL(url)
 			continue OuterLoop
 		}
